@@ -70,6 +70,13 @@ def _class_names():
     return _names["classes"]
 
 
+#: methods of str / bytes / dict / hash objects that compute a value and change nothing (the receiver types are not known statically; the
+#: names are specific enough in this code base)
+PURE_METHODS = {"encode", "decode", "upper", "lower", "strip", "lstrip", "rstrip", "startswith", "endswith", "isdigit", "isascii", "isalnum", "split",
+                "rsplit", "join", "replace", "format", "hex", "get", "keys", "values", "items", "copy", "digest", "hexdigest", "find", "rfind", "index",
+                "count", "translate", "partition", "rpartition", "ljust", "rjust", "zfill", "title", "casefold", "bit_length", "to_bytes"}
+
+
 def anchor_tree(rel):
     """parsed reference version of the file `rel` (e.g. 'passlib/context.py'), or None"""
     if rel not in _cache:
@@ -125,7 +132,7 @@ def _simple_pure(e):
     arithmetic / comparisons / boolean operators over them, calls of a few pure builtins"""
     for n in ast.walk(e):
         if isinstance(n, ast.Call):
-            if not (isinstance(n.func, ast.Name) and n.func.id in PURE_BUILTINS):
+            if not (isinstance(n.func, ast.Name) and n.func.id in PURE_BUILTINS) and not (isinstance(n.func, ast.Attribute) and n.func.attr in PURE_METHODS):
                 return False
         elif isinstance(n, (ast.Await, ast.Yield, ast.YieldFrom, ast.NamedExpr, ast.Lambda, ast.ListComp, ast.SetComp, ast.DictComp, ast.GeneratorExp)):
             return False
@@ -498,6 +505,21 @@ def _neg_test(t):
     return _negate(t, test=True)
 
 
+class _TestBool(ast.NodeTransformer):
+    pass
+
+
+def _strip_bool(t):
+    """in a condition only the truth value matters: bool(x) is x (top level and inside and/or/not)"""
+    if isinstance(t, ast.Call) and isinstance(t.func, ast.Name) and t.func.id == "bool" and len(t.args) == 1 and not t.keywords:
+        return _strip_bool(t.args[0])
+    if isinstance(t, ast.BoolOp):
+        return ast.BoolOp(op=t.op, values=[_strip_bool(v) for v in t.values])
+    if isinstance(t, ast.UnaryOp) and isinstance(t.op, ast.Not):
+        return ast.UnaryOp(op=t.op, operand=_strip_bool(t.operand))
+    return t
+
+
 def _neg_count(t):
     if isinstance(t, ast.UnaryOp) and isinstance(t.op, ast.Not):
         return 1 + _neg_count(t.operand)
@@ -580,9 +602,19 @@ def _tail_merge(stmts):
 
 
 def _return_ifexp(stmts):
-    """return A if c else B   ->   if c: return A ; return B"""
+    """return A if c else B   ->   if c: return A ; return B ;     return A and B  ->  if A: return B ; return A   (A pure)"""
     out = []
     for st in stmts:
+        if isinstance(st, ast.Return) and isinstance(st.value, ast.BoolOp) and len(st.value.values) == 2 and _simple_pure(st.value.values[0]) \
+                and not isinstance(st.value.values[0], ast.Constant):
+            a, b = st.value.values
+            if isinstance(st.value.op, ast.And):
+                out.append(ast.If(test=a, body=_return_ifexp([ast.Return(value=b)]), orelse=[]))
+                out.append(ast.Return(value=copy.deepcopy(a)))
+            else:
+                out.append(ast.If(test=a, body=[ast.Return(value=copy.deepcopy(a))], orelse=[]))
+                out.extend(_return_ifexp([ast.Return(value=b)]))
+            continue
         if isinstance(st, ast.Return) and isinstance(st.value, ast.IfExp):
             e = st.value
             out.append(ast.If(test=e.test, body=_return_ifexp([ast.Return(value=e.body)]), orelse=[]))
@@ -678,12 +710,15 @@ def _norm_stmt(st, fn_locals):
     if isinstance(st, ast.If):
         body = _norm_block(st.body, fn_locals)
         orelse = _norm_block(st.orelse, fn_locals)
-        test = st.test
+        test = _strip_bool(st.test)
         if not body and not orelse:
             return ast.Expr(value=test) if not _simple_pure(test) else None
         m = _merge_branches(test, body, orelse)
         if m is not None:
             return m
+        # if a: (if b: S)   ->   if a and b: S
+        if not orelse and len(body) == 1 and isinstance(body[0], ast.If) and not body[0].orelse:
+            return ast.If(test=_Expr().visit_BoolOp(ast.BoolOp(op=ast.And(), values=[test, body[0].test]), descend=False), body=body[0].body, orelse=[])
         if not body:
             test, body, orelse = _neg_test(test), orelse, []
         elif orelse and not _terminates(body) and not _terminates(orelse) and not _canonical_polarity(test):
@@ -888,6 +923,13 @@ def _loops_to_builtins(stmts):
             call = ast.Call(func=ast.Name(id="any" if inner else "all", ctx=ast.Load()), args=[gen], keywords=[])
             out[i:i + 2] = [ast.Return(value=call)]
             continue
+        # for x in it: if c: raise E      ->      if any(c for x in it): raise E        (E does not mention x)
+        if isinstance(s, ast.For) and not s.orelse and len(s.body) == 1 and isinstance(s.body[0], ast.If) and not s.body[0].orelse \
+                and len(s.body[0].body) == 1 and isinstance(s.body[0].body[0], ast.Raise) and isinstance(s.target, ast.Name) \
+                and s.target.id not in _names_loaded(s.body[0].body[0]):
+            gen = ast.GeneratorExp(elt=s.body[0].test, generators=[ast.comprehension(target=s.target, iter=s.iter, ifs=[], is_async=0)])
+            out[i] = ast.If(test=ast.Call(func=ast.Name(id="any", ctx=ast.Load()), args=[gen], keywords=[]), body=s.body[0].body, orelse=[])
+            continue
         # v = [] ; for x in it: v.append(e)   ->  v = [e for x in it]      (also with one `if c:` around the append)
         if isinstance(s, ast.Assign) and len(s.targets) == 1 and isinstance(s.targets[0], ast.Name) and isinstance(s.value, ast.List) and not s.value.elts \
                 and isinstance(nxt, ast.For) and not nxt.orelse and len(nxt.body) == 1:
@@ -924,6 +966,26 @@ def _inline_temps(stmts, fn_locals):
         return stmts
     counts = fn_locals
     out = list(stmts)
+    # a pure temporary may also travel over pure assignments that do not touch what it reads:  t = E ; a = P ; S(t)  ->  a = P ; S(E)
+    i = 0
+    moved = set()
+    while i + 2 < len(out):
+        s = out[i]
+        if id(s) not in moved and isinstance(s, ast.Assign) and len(s.targets) == 1 and isinstance(s.targets[0], ast.Name) and _simple_pure(s.value) \
+                and counts.get(s.targets[0].id, (0, 0, False))[:2] == (1, 1):
+            t = s.targets[0].id
+            reads = _names_loaded(s.value)
+            j = i + 1
+            while j < len(out):
+                tv = _tgt_val(out[j])
+                if tv is None or tv[0] in reads or tv[0] == t or t in tv[1]:
+                    break
+                j += 1
+            if i + 1 < j < len(out) and any(isinstance(n, ast.Name) and n.id == t for h in _header_of(out[j]) for n in ast.walk(h)):
+                moved.add(id(s))
+                out.insert(j - 1, out.pop(i))      # move the definition next to its use; the adjacent rule below does the rest
+                continue
+        i += 1
     i = 0
     while i + 1 < len(out):
         s, nxt = out[i], out[i + 1]
@@ -931,7 +993,7 @@ def _inline_temps(stmts, fn_locals):
             t = s.targets[0].id
             info = counts.get(t)
             if info is not None and (info[:2] == (1, 1) or info[2]) and not isinstance(nxt, (ast.FunctionDef, ast.ClassDef)):
-                header = _header_of(nxt)
+                header = _header_of_pure(nxt) if _simple_pure(s.value) else _header_of(nxt)
                 uses = [n for h in header for n in ast.walk(h) if isinstance(n, ast.Name) and n.id == t and isinstance(n.ctx, ast.Load)]
                 body_uses = sum(1 for n in ast.walk(nxt) if isinstance(n, ast.Name) and n.id == t and isinstance(n.ctx, ast.Load))
                 if len(uses) == 1 and body_uses == 1 and _inline_ok(s.value, header, uses[0]):
@@ -1033,7 +1095,12 @@ def _stable(e, attr_stores, params=("self", "cls")):
         elif isinstance(n, ast.Call):
             if not (isinstance(n.func, ast.Name) and n.func.id == "len" and len(n.args) == 1 and not n.keywords):
                 return False
-        elif isinstance(n, (ast.Subscript, ast.BinOp, ast.Compare, ast.BoolOp, ast.IfExp, ast.UnaryOp)):
+        elif isinstance(n, ast.Subscript):
+            sl = n.slice
+            parts = [sl.lower, sl.upper, sl.step] if isinstance(sl, ast.Slice) else [sl]
+            if not all(x is None or (isinstance(x, ast.Constant) and isinstance(x.value, int)) or (isinstance(x, ast.UnaryOp) and isinstance(x.operand, ast.Constant)) for x in parts):
+                return False
+        elif isinstance(n, (ast.BinOp, ast.Compare, ast.BoolOp, ast.IfExp)):
             return False
     return True
 
@@ -1109,6 +1176,13 @@ def _header_of(st):
     if isinstance(st, ast.Try):
         return []
     return [st]
+
+
+def _header_of_pure(st):
+    """for a value without side effects the first statement of a try body / with body is as good as the statement itself"""
+    if isinstance(st, ast.Try) and st.body:
+        return _header_of_pure(st.body[0])
+    return _header_of(st)
 
 
 class _Subst(ast.NodeTransformer):
@@ -1863,7 +1937,9 @@ def normal_ast(node, helpers=None, in_class=False, single_base=None, depth=0):
             node.body = node.body + [ast.Return(value=None)]
         for _ in range(4):
             before = _dump(node)
+            _webs(node)
             _propagate(node)
+            node.body = _cond_assign(node.body, params)
             counts = _local_counts(node)
             node.body = _norm_block(node.body, counts) or [ast.Pass()]
             node = _Expr(single_base).visit(node)
